@@ -14,7 +14,7 @@ import Grass.Proto
     crates/compiler/src/serializer.rs:848-918   visit_quoted_string
     crates/compiler/src/serializer.rs:965-983   write_style
     crates/compiler/src/serializer.rs:985-996   write_import
-    crates/compiler/src/serializer.rs:998-1022  write_comment
+    crates/compiler/src/serializer.rs:997-1031  write_comment
     crates/compiler/src/serializer.rs:1024-1030 requires_semicolon
     crates/compiler/src/serializer.rs:1032-1081 write_children
     crates/compiler/src/serializer.rs:1111-1183 visit_stmt
@@ -309,8 +309,10 @@ def linesOf (s : Str) : List Str :=
   let ps := if ps.getLast? = some [] then ps.dropLast else ps
   ps.map stripCr
 
-/-- `write_comment` body (serializer.rs:1003-1021): first line left-trimmed; every further line
-    re-indented by its own indentation (in bytes) minus the column of the comment's start. -/
+/-- `write_comment` body (serializer.rs:1002-1028): first line left-trimmed; every further line
+    re-indented by its own indentation (in bytes) minus `col`.  Since e81c3e6 `col` is the number of
+    characters between the start of the comment's own source line (a line ends at `\n`, `\r` or
+    form feed; a leading BOM is not counted) and the comment — no longer `codemap`'s column. -/
 def commentOut (text : Str) (col : Nat) : Str :=
   match linesOf text with
   | [] => []
@@ -686,6 +688,262 @@ def rulesOf (t : List SRule) : List (Str × List (Str × Str)) :=
   (t.filter (fun r => !r.decls.isEmpty)).map (fun r => (r.sel, r.decls))
 
 
+/-! ## CssRead — reader for the whole serialised subset
+    (`C05_read_roundtrip`, `C06_style_equiv_model`; also run by the driver on grass's own output).
+    The canonical text of a prelude / item is the text with spaces and newlines OUTSIDE strings,
+    comments and escapes removed (`sq`): coarse — it does not distinguish `a b` from `ab` — but it is
+    what makes the two styles comparable without knowing the grammar of the opaque texts. -/
+
+/-- Mode transitions of the scanner without the depth (total). -/
+def mstepN (c : Char) : Mode :=
+  if c = '"' || c = '\'' then .str c
+  else if c = '/' then .slash
+  else if c = '\\' then .esc
+  else .normal
+
+def mstep (m : Mode) (c : Char) : Mode :=
+  match m with
+  | .normal => mstepN c
+  | .slash => if c = '*' then .comment else mstepN c
+  | .esc => .normal
+  | .str q => if c = '\\' then .strEsc q else if c = q then .normal else .str q
+  | .strEsc q => .str q
+  | .comment => if c = '*' then .commentStar else .comment
+  | .commentStar => if c = '/' then .normal else if c = '*' then .commentStar else .comment
+
+def mrun : Mode → Str → Mode
+  | m, [] => m
+  | m, c :: cs => mrun (mstep m c) cs
+
+/-- Outside strings, comments and escapes. -/
+def Mode.isTop : Mode → Bool
+  | .normal => true
+  | .slash => true
+  | _ => false
+
+def structural (c : Char) : Bool := c = '{' || c = '}' || c = ';'
+
+def isWsC (c : Char) : Bool := c = ' ' || c = '\n'
+
+/-- `x` read from mode `m`: no `{ } ;` is met outside strings/comments/escapes and the scan ends
+    in mode normal. -/
+def flatFrom : Mode → Str → Bool
+  | m, [] => m == .normal
+  | m, c :: cs => !(m.isTop && structural c) && flatFrom (mstep m c) cs
+
+def flat (x : Str) : Bool := flatFrom .normal x
+
+/-- Canonical text of a segment: spaces and newlines outside strings/comments/escapes dropped. -/
+def sqFrom : Mode → Str → Str
+  | _, [] => []
+  | m, c :: cs => if m.isTop && isWsC c then sqFrom (mstep m c) cs else c :: sqFrom (mstep m c) cs
+
+def sq (x : Str) : Str := sqFrom .normal x
+
+mutual
+inductive RNode
+  | block (prelude : Str) (kids : RNodes)
+  | item (text : Str)
+  | comment (text : Str)
+inductive RNodes
+  | nil
+  | cons (n : RNode) (ns : RNodes)
+end
+
+inductive Delim | opn | cls | semi | eof
+  deriving DecidableEq, Repr
+
+def delimOf (c : Char) : Delim := if c = '{' then .opn else if c = '}' then .cls else .semi
+
+/-- One segment: canonical text up to the next `{ } ;` outside strings/comments, the delimiter,
+    and the text after it. -/
+def scanSeg : Mode → Str → Str × Delim × Str
+  | _, [] => ([], .eof, [])
+  | m, c :: cs =>
+    if m.isTop && structural c then ([], delimOf c, cs)
+    else
+      let r := scanSeg (mstep m c) cs
+      (if m.isTop && isWsC c then r.1 else c :: r.1, r.2.1, r.2.2)
+
+def skipWs : Str → Str
+  | [] => []
+  | c :: cs => if isWsC c then skipWs cs else c :: cs
+
+/-- After `/*`: everything up to and including the first `*/`, and the rest. -/
+def commentBody : Str → Option (Str × Str)
+  | [] => none
+  | c :: r =>
+    if c = '*' && r.head? = some '/' then some (['*', '/'], r.drop 1)
+    else (commentBody r).map (fun x => (c :: x.1, x.2))
+
+def takeComment : Str → Option (Str × Str)
+  | '/' :: '*' :: r => (commentBody r).map (fun x => ('/' :: '*' :: x.1, x.2))
+  | _ => none
+
+def isLoud (c : Str) : Bool := startsWith c ['/', '*', '!']
+
+def consItem (seg : Str) (ns : RNodes) : RNodes := if seg.isEmpty then ns else .cons (.item seg) ns
+def consComment (c : Str) (ns : RNodes) : RNodes := if isLoud c then .cons (.comment c) ns else ns
+
+/-- Reads statements until the `}` that closes the current block (consumed; `top = false`) or the
+    end of the text (`top = true`).  Comments that are not `/*!` are dropped; empty items (a final
+    optional `;`) are dropped. -/
+def readNodes : Nat → Bool → Str → Option (RNodes × Str)
+  | 0, _, _ => none
+  | f + 1, top, text =>
+    let t := skipWs text
+    if t.isEmpty then (if top then some (.nil, []) else none)
+    else if startsWith t ['/', '*'] then
+      match takeComment t with
+      | some (c, rest) => (readNodes f top rest).map (fun r => (consComment c r.1, r.2))
+      | none => none
+    else
+      match scanSeg .normal t with
+      | (seg, .semi, rest) => (readNodes f top rest).map (fun r => (consItem seg r.1, r.2))
+      | (seg, .cls, rest) => if top then none else some (consItem seg .nil, rest)
+      | (seg, .eof, _) => if top then some (consItem seg .nil, []) else none
+      | (seg, .opn, rest) =>
+        match readNodes f false rest with
+        | some (kids, rest') => (readNodes f top rest').map (fun r => (.cons (.block seg kids) r.1, r.2))
+        | none => none
+
+/-- Drop a leading BOM or `@charset "UTF-8";` line. -/
+def stripHeader (out : Str) : Str :=
+  if startsWith out charsetPrefix then out.drop charsetPrefix.length
+  else if out.head? = some bom then out.drop 1 else out
+
+/-- CssRead: the statement tree of a serialised text. -/
+def readTree (out : Str) : Option RNodes :=
+  let t := stripHeader out
+  match readNodes (t.length + 1) true t with
+  | some (ns, _) => some ns
+  | none => none
+
+/-! ### what the reader is expected to return -/
+
+def rulePrelude (st : Style) (sel : Selector) : Str := selectorOut st sel
+def declText (st : Style) (name : Str) (custom : Bool) (v : Value) : Str :=
+  name ++ [':'] ++ (if !custom && !st.isCompressed then [' '] else []) ++ v.out st
+def mediaPrelude (st : Style) (qs : List Query) : Str := lit "@media " ++ joinWith (',' :: optSp st) (qs.map queryOut)
+def supportsPrelude (params : Str) : Str := lit "@supports" ++ (if params.isEmpty then [] else ' ' :: params)
+def unknownPrelude (name params : Str) : Str := '@' :: name ++ (if params.isEmpty then [] else ' ' :: params)
+def kfPrelude (sels : List Str) : Str := joinWith (lit ", ") sels
+def importText (url : Str) (mods : Option Str) : Str :=
+  lit "@import " ++ url ++ (match mods with | some m => ' ' :: m | none => [])
+
+def consOpt (n : Option RNode) (ns : RNodes) : RNodes :=
+  match n with
+  | some n => .cons n ns
+  | none => ns
+
+mutual
+/-- The node the reader returns for a statement printed in style `st` (none: nothing is read). -/
+def canonStmt (st : Style) : Stmt → Option RNode
+  | .rule ge sel body =>
+    if (Stmt.rule ge sel body).isInvisible then none
+    else some (.block (sq (rulePrelude st sel)) (canonKids st body))
+  | .decl name custom v => if v.isBlank then none else some (.item (sq (declText st name custom v)))
+  | .media ge qs body =>
+    if (Stmt.media ge qs body).isInvisible then none
+    else some (.block (sq (mediaPrelude st qs)) (canonKids st body))
+  | .supports ge params body =>
+    if (Stmt.supports ge params body).isInvisible then none
+    else some (.block (sq (supportsPrelude params)) (canonKids st body))
+  | .unknown _ name params hasBody body =>
+    if !hasBody then some (.item (sq (unknownPrelude name params)))
+    else some (.block (sq (unknownPrelude name params)) (if body.allInvisible then .nil else canonKids st body))
+  | .kf sels body =>
+    if (Stmt.kf sels body).isInvisible then none
+    else some (.block (sq (kfPrelude sels)) (canonKids st body))
+  | .comment text col => if isLoud (commentOut text col) then some (.comment (commentOut text col)) else none
+  | .import url mods => some (.item (sq (importText url mods)))
+def canonKids (st : Style) : Stmts → RNodes
+  | .nil => .nil
+  | .cons s ss => consOpt (canonStmt st s) (canonKids st ss)
+end
+
+def canonTop (st : Style) : List Stmt → RNodes
+  | [] => .nil
+  | s :: ss => consOpt (canonStmt st s) (canonTop st ss)
+
+/-! ### guard: what the reader can read back -/
+
+def headOk (x : Str) : Bool :=
+  match x with
+  | c :: _ => c != '/' && !isWsC c
+  | [] => false
+
+/-- A header / item text: flat and starting with a character that is neither whitespace nor `/`. -/
+def hdrOk (x : Str) : Bool := flat x && headOk x
+
+/-- A comment token: `/* … */` whose first `*/` is its end. -/
+def commentTok (c : Str) : Bool := takeComment c == some (c, [])
+
+mutual
+/-- (statements that are invisible are never printed and need no guard) -/
+def Stmt.readable (st : Style) : Stmt → Bool
+  | .rule ge sel body => (Stmt.rule ge sel body).isInvisible || (hdrOk (rulePrelude st sel) && body.readable st)
+  | .decl name custom v => v.isBlank || hdrOk (declText st name custom v)
+  | .media ge qs body => (Stmt.media ge qs body).isInvisible || (hdrOk (mediaPrelude st qs) && body.readable st)
+  | .supports ge params body =>
+    (Stmt.supports ge params body).isInvisible || (hdrOk (supportsPrelude params) && body.readable st)
+  | .unknown _ name params _ body => hdrOk (unknownPrelude name params) && body.readable st
+  | .kf sels body => (Stmt.kf sels body).isInvisible || (hdrOk (kfPrelude sels) && body.readable st)
+  | .comment text col =>
+    commentTok (commentOut text col) && (isLoud (commentOut text col) == startsWith text (lit "/*!"))
+  | .import url mods => hdrOk (importText url mods)
+def Stmts.readable (st : Style) : Stmts → Bool
+  | .nil => true
+  | .cons s ss => s.readable st && ss.readable st
+end
+
+def treeReadable (st : Style) (t : List Stmt) : Bool := t.all (Stmt.readable st)
+
+
+
+/-! ### style-free guard of `C06_style_equiv_model` -/
+
+def selG (sel : Selector) : Bool :=
+  (sel.filter (fun c => !c.isInvisible)).all (fun cx => cx.comps.all (fun c => flat c.out)) &&
+  headOk (selectorOut .expanded sel) && headOk (selectorOut .compressed sel)
+
+def headNotStar (x : Str) : Bool :=
+  match x with
+  | c :: _ => c != '*'
+  | [] => false
+
+def Atom.g : Atom → Bool
+  | .raw s => flat (unquotedOut s) && headNotStar (unquotedOut s)
+  | .quoted _ => true
+
+def Value.g : Value → Bool
+  | .atom a => a.isBlank || a.g
+  | .list _ items => items.all (fun a => a.isBlank || a.g)
+
+
+mutual
+/-- Guard of the style-equivalence theorem, independent of the style: the opaque pieces are flat
+    (selector components, property names, unquoted atoms, queries, at-rule headers), unquoted atoms
+    do not start with `*` (compressed `a/*b` would open a comment), headers do not start with
+    whitespace or `/`, comments are `/* … */` tokens.  Quoted strings are NOT constrained. -/
+def Stmt.g : Stmt → Bool
+  | .rule ge sel body => (Stmt.rule ge sel body).isInvisible || (selG sel && body.g)
+  | .decl name _ v => v.isBlank || (flat name && headOk name && v.g)
+  | .media ge qs body => (Stmt.media ge qs body).isInvisible || ((qs.map queryOut).all flat && body.g)
+  | .supports ge params body => (Stmt.supports ge params body).isInvisible || (hdrOk (supportsPrelude params) && body.g)
+  | .unknown _ name params _ body => hdrOk (unknownPrelude name params) && body.g
+  | .kf sels body => (Stmt.kf sels body).isInvisible || (hdrOk (kfPrelude sels) && body.g)
+  | .comment text col =>
+    commentTok (commentOut text col) && (isLoud (commentOut text col) == startsWith text (lit "/*!"))
+  | .import url mods => hdrOk (importText url mods)
+def Stmts.g : Stmts → Bool
+  | .nil => true
+  | .cons s ss => s.g && ss.g
+end
+
+def treeG (t : List Stmt) : Bool := t.all Stmt.g
+
+
 /-! ## driver: tree decoding -/
 
 open Grass.Proto
@@ -835,6 +1093,18 @@ def parseStyle : String → Option Style
 
 def outHex (s : Str) : String := hexEncode (String.ofList s)
 
+/-! ### driver encoding of a read tree -/
+mutual
+def RNode.enc : RNode → String
+  | .block p kids => "B" ++ outHex p ++ "(" ++ kids.enc ++ ")"
+  | .item t => "I" ++ outHex t
+  | .comment t => "C" ++ outHex t
+def RNodes.enc : RNodes → String
+  | .nil => ""
+  | .cons n ns => n.enc ++ "," ++ ns.enc
+end
+
+
 /-- Sass-only syntax scanner (P̂ `sassFree`), see below. -/
 def isNameStart (c : Char) : Bool :=
   c.isAlpha || c = '_' || c = '-' || c.toNat ≥ 128
@@ -913,11 +1183,13 @@ def sassFree (out : Str) : Bool :=
   | none => false
 
 /-- Driver entry.  Requests (after the `ser` token):
-    `print <e|c> <0|1> <tree…>`   → `ok <hex of serialize> <wellFormed> <charsetOk> <treeOk guard> <sassFree>`
+    `print <e|c> <0|1> <tree…>`   → `ok <hex of serialize> <wellFormed> <charsetOk> <treeOk> <sassFree> <treeReadable> <treeG> <bodyHasHeader>`
     `wf <hex>`                     → `ok <0|1>`   P̂ well-formedness of a text
     `charset <0|1> <hex>`          → `ok <0|1>`   P̂ charset rule
     `sassfree <hex>`               → `ok <0|1>`
     `read <hex>`                   → `ok <rules>` | `none`   CssRead (declaration-only subset)
+    `readtree <hex>`               → `ok <tree>` | `none`    CssRead (whole serialised subset)
+    `canon <e|c> <tree…>`          → `ok <tree>`             what `readtree` must return for that tree
     `quote <hex>`                  → `ok <hex of quote s> <quotedOk> <roundtrip ok>`
     `quotedok <hex of token>`      → `ok <0|1> <hex of unescape or _>`  -/
 def handle : List String → String
@@ -926,7 +1198,8 @@ def handle : List String → String
     | some st, some cs, some t =>
       let out := serialize st cs t
       "ok " ++ outHex out ++ " " ++ boolStr (wellFormed out) ++ " " ++ boolStr (charsetOk cs out) ++ " " ++
-        boolStr (treeOk st t) ++ " " ++ boolStr (sassFree out)
+        boolStr (treeOk st t) ++ " " ++ boolStr (sassFree out) ++ " " ++ boolStr (treeReadable st t) ++ " " ++
+        boolStr (treeG t) ++ " " ++ boolStr (hasCharsetOrBom (serialize st false t))
     | _, _, _ => "bad-op"
   | ["wf", h] =>
     match hexStr h with
@@ -940,6 +1213,14 @@ def handle : List String → String
     match hexStr h with
     | some s => "ok " ++ boolStr (sassFree s)
     | none => "bad-op"
+  | ["readtree", h] =>
+    match hexStr h with
+    | some s => (match readTree s with | some ns => "ok " ++ ns.enc | none => "none")
+    | none => "bad-op"
+  | "canon" :: st :: tree =>
+    match parseStyle st, parseTree tree with
+    | some st, some t => "ok " ++ (canonTop st t).enc
+    | _, _ => "bad-op"
   | ["read", h] =>
     -- `read <hex>` → `ok <sel>=<name>:<value>,…|…` with hex fields, or `none`
     match hexStr h with
